@@ -228,6 +228,7 @@ type JobResult struct {
 	Witness     *Violation     `json:"witness,omitempty"`
 	WitnessObs  map[string]string `json:"witness_obs,omitempty"`
 	MoreWitness []WitnessOut      `json:"more_witness,omitempty"`
+	HeapMB      int               `json:"heap_mb,omitempty"`
 	CrossChecked  int             `json:"cross_checked,omitempty"`
 	CrossUnknown  int             `json:"cross_unknown,omitempty"`
 	CrossDisagree []string        `json:"cross_disagree,omitempty"`
@@ -304,6 +305,9 @@ func (in *Interp) runJob(job Job) (res *JobResult) {
 	res.Infeasible = run.infeasible
 	res.Unsupported, res.Unwind, res.PathCap = run.unsupported, run.unwind, run.pathCap
 	res.Violations = run.violations
+	var ms runtime.MemStats
+	runtime.ReadMemStats(&ms)
+	res.HeapMB = int(ms.HeapAlloc >> 20)
 	res.CrossChecked, res.CrossUnknown, res.CrossDisagree = run.crossChecked, run.crossUnknown, run.crossDisagree
 	res.Reach, res.KnownHit, res.Asserts, res.Samples = run.reach, run.knownHit, run.assertNames, run.samples
 	if run.witness != nil {
